@@ -20,7 +20,10 @@
 (*           bit positions, horizontal carries, lazy block activation)      *)
 (*   Tb*     the column store (ring buffer / full history, sentinel column, *)
 (*           stale contents after reuse) and the traceback cursor walk      *)
-(* The MC modules ApproxMatchMC / MyersBlockMC / MyersTbMC instantiate them.*)
+(*   Canon*  the walk on the complete matrix (what the traceback machine    *)
+(*           answers; used for MODEL-DRIFT reports by MyersTbTrace)         *)
+(* MC modules: ApproxMatchMC (Ukk), MyersBlockMC (Blk), MyersTbMC (Tb),     *)
+(* MyersProtoMC (caller protocol; generates behaviours for spec -> impl).   *)
 (***************************************************************************)
 EXTENDS Integers, Sequences, FiniteSets
 
@@ -144,11 +147,6 @@ WalkRec(ctx, t, ops, n, i, j, cost) ==
          THEN IF i < ctx.m THEN WalkRec(ctx, t, ops, n + 1, i + 1, j, cost + 1) ELSE << -1, -1, -1 >>
          ELSE << -1, -1, -1 >>
 
-IsNat(x) == x \in Nat
-IsSeqOfInt(s) == \* total test for "s is a sequence of integers" on JSON-derived values
-    /\ DOMAIN s = 1..Len(s)
-    /\ \A x \in 1..Len(s) : s[x] \in Int
-
 \* start/end delimit t[start..end) (0-based, end exclusive); d is the reported distance;
 \* row = LastRow(ctx,t). The path consumes exactly the pattern and that substring, its
 \* cost is d, and d is the DP value at the end column: so d is also the global edit
@@ -161,5 +159,204 @@ ValidHit(ctx, t, row, start, end, d, ops) ==
     /\ end \in 1..Len(t)
     /\ d = row[end]
     /\ ValidPath(ctx, t, start, end, d, ops)
+
+\* ==========================================================================
+\*                               MACHINE LAYER
+\* ==========================================================================
+RECURSIVE ConstRec(_, _, _)
+ConstRec(n, v, acc) == IF Len(acc) = n THEN acc ELSE ConstRec(n, v, Append(acc, v))
+ConstSeq(n, v) == ConstRec(n, v, << >>)
+
+\* ---------------------------------------------------------------- Ukkonen
+\* ukkonen.rs: two rolling columns D[0], D[1] of m+1 cells (cell j at index j+1), only
+\* the cells 0..lastk of the current column are written; everything below keeps
+\* whatever an earlier column (or the initialisation) left there.
+UkkInit(m, k) == [d0 |-> ConstSeq(m + 1, k + 1), d1 |-> Iota(m), lastk |-> Min2(k, m), hit |-> << >>]
+
+RECURSIVE UkkFill(_, _, _, _, _, _)
+UkkFill(ctx, col, prev, c, j, hi) ==
+    IF j > hi THEN col
+    ELSE UkkFill(ctx,
+                 [col EXCEPT ![j + 1] = Min3(prev[j + 1] + 1, col[j] + 1, prev[j] + Sub(ctx, j, c))],
+                 prev, c, j + 1, hi)
+
+RECURSIVE UkkCut(_, _, _)
+UkkCut(col, lastk, k) == IF col[lastk + 1] > k THEN UkkCut(col, lastk - 1, k) ELSE lastk
+
+\* one iteration of Matches::next for text symbol c at 0-based position i
+UkkStep(ctx, u, i, c, k) ==
+    LET even == i % 2 = 0
+        cur  == IF even THEN u.d0 ELSE u.d1
+        prev == IF even THEN u.d1 ELSE u.d0
+        hi   == Min2(u.lastk + 1, ctx.m)
+        col  == UkkFill(ctx, [cur EXCEPT ![1] = 0], prev, c, 1, hi)
+        lk   == UkkCut(col, hi, k)
+    IN  [d0 |-> IF even THEN col ELSE u.d0, d1 |-> IF even THEN u.d1 ELSE col, lastk |-> lk,
+         hit |-> IF lk = ctx.m THEN << i, col[ctx.m + 1] >> ELSE << >>]
+UkkCur(u, i) == IF i % 2 = 1 THEN u.d0 ELSE u.d1       \* column written by step i-1 (i >= 1); d1 for i = 0
+
+\* ------------------------------------------------------ Myers block machine
+\* long.rs (simple.rs = one block, no carries): a column of the matrix is stored as
+\* blocks of W rows, each block = (Pv, Mv, dist): vertical deltas +1 / -1 as W-bit words
+\* (here: sets of bit positions) and the value at the last row of the block.
+AllBits(W) == 0..(W - 1)
+NotW(a, W) == AllBits(W) \ a
+ShlW(a, W) == {x + 1 : x \in {y \in a : y + 1 < W}}
+XorW(a, b) == (a \ b) \cup (b \ a)
+RECURSIVE AddRec(_, _, _, _, _, _)
+AddRec(a, b, W, i, carry, acc) ==                       \* addition modulo 2^W
+    IF i = W THEN acc
+    ELSE LET sum == (IF i \in a THEN 1 ELSE 0) + (IF i \in b THEN 1 ELSE 0) + carry
+         IN  AddRec(a, b, W, i + 1, sum \div 2, IF sum % 2 = 1 THEN acc \cup {i} ELSE acc)
+AddW(a, b, W) == AddRec(a, b, W, 0, 0, {})
+
+BlkCount(m, W) == (m + W - 1) \div W
+BlkRows(m, W, b) == IF b = BlkCount(m, W) - 1 /\ m % W # 0 THEN m % W ELSE W     \* b 0-based
+\* equality mask of block b for text symbol c (ctx of kind "eq"); a wildcard sets ALL bits
+BlkPeq(ctx, W, b, c) ==
+    IF c \in ctx.wild THEN AllBits(W)
+    ELSE {r \in AllBits(W) : b * W + r < ctx.m /\ c \in ctx.pm[b * W + r + 1]}
+
+\* advance_block: returns the new block and the horizontal delta leaving its last row
+BlkAdvance(s, eq0, bound, hin, W) ==
+    LET xv  == eq0 \cup s.mv
+        eq  == IF hin < 0 THEN eq0 \cup {0} ELSE eq0
+        xh  == XorW(AddW(eq \cap s.pv, s.pv, W), s.pv) \cup eq
+        ph  == s.mv \cup NotW(xh \cup s.pv, W)
+        mh  == s.pv \cap xh
+        hout == (IF bound \in ph THEN 1 ELSE 0) - (IF bound \in mh THEN 1 ELSE 0)
+        ph1 == ShlW(ph, W) \cup (IF hin > 0 THEN {0} ELSE {})
+        mh1 == ShlW(mh, W) \cup (IF hin < 0 THEN {0} ELSE {})
+    IN  [s |-> [pv |-> mh1 \cup NotW(xv \cup ph1, W), mv |-> ph1 \cap xv, dist |-> s.dist + hout],
+         hout |-> hout]
+
+\* States::add_state
+BlkAdd(states, m, W, offset) ==
+    LET prevd == IF states = << >> THEN 0 ELSE states[Len(states)].dist
+        delta == IF Len(states) = BlkCount(m, W) - 1 /\ m % W > 0 THEN m % W ELSE W
+    IN  Append(states, [pv |-> AllBits(W), mv |-> {}, dist |-> prevd + delta + offset])
+
+RECURSIVE BlkNewRec(_, _, _, _)
+BlkNewRec(states, m, W, n) == IF Len(states) = n THEN states ELSE BlkNewRec(BlkAdd(states, m, W, 0), m, W, n)
+\* States::new; k < 0 = unbounded
+BlkNew(m, k, W) ==
+    LET kk == IF k < 0 THEN m ELSE Min2(k, m)
+    IN  BlkNewRec(<< >>, m, W, Max2(1, (kk + W - 1) \div W))
+
+RECURSIVE BlkSweep(_, _, _, _, _, _, _)
+BlkSweep(ctx, states, c, W, b, carry, acc) ==           \* b 1-based
+    IF b > Len(states) THEN << acc, carry >>
+    ELSE LET r == BlkAdvance(states[b], BlkPeq(ctx, W, b - 1, c), BlkRows(ctx.m, W, b - 1) - 1, carry, W)
+         IN  BlkSweep(ctx, states, c, W, b + 1, r.hout, Append(acc, r.s))
+
+RECURSIVE BlkDrop(_, _, _)
+BlkDrop(states, last, lim) ==                           \* last 1-based
+    IF last > 1 /\ states[last].dist >= lim THEN BlkDrop(states, last - 1, lim) ELSE last
+
+\* States::step
+BlkStep(ctx, states, c, k, W) ==
+    LET sw    == BlkSweep(ctx, states, c, W, 1, 0, << >>)
+        adv   == sw[1]
+        carry == sw[2]
+        last  == Len(adv)
+        ldist == adv[last].dist
+    IN  IF /\ Within(ldist - carry, k)
+           /\ last < BlkCount(ctx.m, W)
+           /\ (0 \in BlkPeq(ctx, W, last, c) \/ carry < 0)
+        THEN LET grown == BlkAdd(adv, ctx.m, W, -carry)
+                 r     == BlkAdvance(grown[last + 1], BlkPeq(ctx, W, last, c),
+                                     BlkRows(ctx.m, W, last) - 1, carry, W)
+             IN  [grown EXCEPT ![last + 1] = r.s]
+        ELSE IF k < 0 THEN adv                          \* max_dist.saturating_add(w): never reached
+        ELSE SubSeq(adv, 1, BlkDrop(adv, last, k + W))
+
+BlkKnown(states, m, W) == IF Len(states) = BlkCount(m, W) THEN states[Len(states)].dist ELSE -1
+\* value of matrix row g (1..m) decoded from the blocks (row g must lie in an active block)
+BlkRowVal(states, m, W, g) ==
+    LET b   == (g - 1) \div W
+        r   == (g - 1) % W
+        s   == states[b + 1]
+        rng == (r + 1)..(BlkRows(m, W, b) - 1)
+    IN  s.dist - Cardinality(rng \cap s.pv) + Cardinality(rng \cap s.mv)
+BlkActiveRows(states, m, W) == Min2(m, Len(states) * W)
+
+\* --------------------------------------------- column store and traceback (C10)
+\* traceback.rs keeps the computed columns in a vector of R slots used cyclically
+\* (eager API: R = m + min(k,m) + 2; lazy API: R = n + 2). Slot 0 receives a sentinel
+\* column of "infinite" values, slot 1 the initial column, then one slot per text
+\* symbol. The vector is reused between searches: it is only resized, so slots not
+\* yet written in this search still hold columns of an earlier search.
+\* Here a slot is [col, gen, j]: the column values, the search that wrote it and its
+\* column index (-1 = sentinel, 0 = initial column).
+INF == 1000000
+TbSentinel(m, gen) == [col |-> ConstSeq(m + 1, INF), gen |-> gen, j |-> -1]
+TbDefault(m) == [col |-> ConstSeq(m + 1, 0), gen |-> 0, j |-> -2]      \* State::default()
+
+TbResize(store, R, m) ==
+    IF Len(store) >= R THEN SubSeq(store, 1, R)
+    ELSE store \o ConstSeq(R - Len(store), TbDefault(m))
+\* Traceback::new
+TbNew(store, R, m, gen) ==
+    LET s1 == TbResize(store, R, m)
+        s2 == [s1 EXCEPT ![1] = TbSentinel(m, gen)]
+    IN  [s2 EXCEPT ![2] = [col |-> Iota(m), gen |-> gen, j |-> 0]]
+\* Traceback::add_state at slot pos (0-based)
+TbPut(store, pos, col, gen, j) == [store EXCEPT ![pos + 1] = [col |-> col, gen |-> gen, j |-> j]]
+
+\* _traceback_at: cursor walk from the last row of the column in slot s. Decisions as in
+\* the code: substitution if diagonal + 1 = current; else insertion if the Pv bit is set
+\* (up + 1 = current); else deletion if the Mv bit of the left column is set
+\* (left = diagonal - 1); else match. cj = index of the matrix column the walk believes
+\* to be in slot s; `fresh` stays TRUE as long as every slot whose values were read was
+\* written by search `gen` and holds exactly the expected column (cj, cj-1; the sentinel
+\* left of column 0).
+RECURSIVE TbWalkRec(_, _, _, _, _, _, _, _, _)
+TbWalkRec(store, R, s, cj, gen, i, hoff, ops, fresh) ==
+    IF i = 0 THEN [ok |-> TRUE, len |-> hoff, ops |-> ops, fresh |-> fresh]
+    ELSE IF hoff > 2 * R THEN [ok |-> FALSE, len |-> hoff, ops |-> ops, fresh |-> fresh]
+    ELSE LET ls    == (s + R - 1) % R
+             cur   == store[s + 1].col
+             left  == store[ls + 1].col
+             fr2   == /\ fresh
+                      /\ store[s + 1].gen = gen /\ store[s + 1].j = cj
+                      /\ store[ls + 1].gen = gen /\ store[ls + 1].j = cj - 1
+         IN  IF left[i] + 1 = cur[i + 1]
+             THEN TbWalkRec(store, R, ls, cj - 1, gen, i - 1, hoff + 1, << OpSubst >> \o ops, fr2)
+             ELSE IF cur[i + 1] = cur[i] + 1
+             THEN TbWalkRec(store, R, s, cj, gen, i - 1, hoff, << OpIns >> \o ops, fr2)
+             ELSE IF left[i + 1] = left[i] - 1
+             THEN TbWalkRec(store, R, ls, cj - 1, gen, i, hoff + 1, << OpDel >> \o ops, fr2)
+             ELSE TbWalkRec(store, R, ls, cj - 1, gen, i - 1, hoff + 1, << OpMatch >> \o ops, fr2)
+TbWalk(store, R, s, cj, gen, m) ==
+    LET w == TbWalkRec(store, R, s, cj, gen, m, 0, << >>, TRUE)
+    IN  [ok |-> w.ok, len |-> w.len, ops |-> w.ops, fresh |-> w.fresh, dist |-> store[s + 1].col[m + 1]]
+
+\* the same walk on the complete matrix (sentinel, column 0, ..., column n): the
+\* alignment the implementation is expected to produce for the hit ending at 0-based e
+RECURSIVE CanonStoreRec(_, _, _)
+CanonStoreRec(cols, m, acc) ==
+    IF Len(acc) > Len(cols) THEN acc
+    ELSE CanonStoreRec(cols, m, Append(acc, [col |-> cols[Len(acc)], gen |-> 1, j |-> Len(acc) - 1]))
+CanonStore(ctx, t) == CanonStoreRec(Cols(ctx, t), ctx.m, << TbSentinel(ctx.m, 1) >>)
+Canon(ctx, t, e) == TbWalk(CanonStore(ctx, t), Len(t) + 2, e + 2, e + 1, 1, ctx.m)
+
+\* The same walk written directly on the sequence of matrix columns (cols[j+1] = column j),
+\* the sentinel left of column 0 being implicit: <<text symbols consumed, ops>>.
+\* (MyersTbMC checks CanonOnCols = Canon.) Used by the trace specification to report
+\* MODEL-DRIFT when the implementation chooses another optimal path than the machine layer.
+RECURSIVE CanonColsRec(_, _, _, _, _)
+CanonColsRec(cols, j, i, hoff, ops) ==
+    IF i = 0 THEN << hoff, ops >>
+    ELSE LET cur  == cols[j + 1]
+             diag == IF j = 0 THEN INF ELSE cols[j][i]
+             left == IF j = 0 THEN INF ELSE cols[j][i + 1]
+         IN  IF diag + 1 = cur[i + 1]
+             THEN CanonColsRec(cols, j - 1, i - 1, hoff + 1, << OpSubst >> \o ops)
+             ELSE IF cur[i + 1] = cur[i] + 1
+             THEN CanonColsRec(cols, j, i - 1, hoff, << OpIns >> \o ops)
+             ELSE IF left = diag - 1
+             THEN CanonColsRec(cols, j - 1, i, hoff + 1, << OpDel >> \o ops)
+             ELSE CanonColsRec(cols, j - 1, i - 1, hoff + 1, << OpMatch >> \o ops)
+CanonOnCols(cols, m, e) == CanonColsRec(cols, e + 1, m, 0, << >>)      \* e = 0-based end position
 
 =============================================================================
